@@ -2,7 +2,8 @@
 import ast
 
 from ..model import AnalysisError
-from ..lib import FV, Alias, alias_term, decode_new, decode_call, phi_members, is_sym, is_const, is_str, strip_stores, stores_of
+from ..lib import (FV, Alias, alias_term, decode_new, decode_call, phi_members, is_sym, is_const, is_str, strip_stores, stores_of,
+                   find_assign, find_assigns, simple_assigns, local_term)
 from ..cfg import always_raises, walk_stmts
 from . import common as cm
 from . import geom
@@ -177,6 +178,24 @@ def d2_geometry(chk, repo):
                        f"positions {[v.show(p)[:70] for p in pos]}; expected cells[0]/multiplier, cells[1]/multiplier", v.f, call)
 
 
+
+def _quiver_list(v):
+    """the list literal that collects the quiver arguments (positions and the two component arrays) -> (stmt, name, term)"""
+    for st in v.stmts():
+        if isinstance(st, ast.Assign) and isinstance(st.targets[0], ast.Name) and isinstance(st.value, ast.List) and \
+                len(st.value.elts) == 4:
+            return st, st.targets[0].id, v.term(st.value, at=st)
+    return None
+
+
+def _filtered_values(v):
+    """the array handed to _filter_values in this method -> (call, stmt, term)"""
+    for c, s in v.calls():
+        if isinstance(c.func, ast.Attribute) and c.func.attr == "_filter_values" and len(c.args) >= 2:
+            return c, s, v.term(c.args[1], at=s)
+    return None
+
+
 # ------------------------------------------------------------------ D3
 def _transposed_once(v, t, base_pred):
     """t == np.transpose(X[, perm]) / X.transpose() with X not transposed again and base_pred(X)"""
@@ -221,10 +240,8 @@ def d3_orientation(chk, repo):
             chk.ob(MPL + ".lightness::image-transposed", ok, "C20.D3",
                    f"imshow({v.show(t)[:100]}); expected np.transpose(rgba, (1, 0, 2))", v.f, call)
     v = FV(repo, MPL + ".vector", param_types=PT)
-    qa = None
-    for st in v.stmts():
-        if isinstance(st, ast.Assign) and isinstance(st.targets[0], ast.Name) and st.targets[0].id == "quiver_args":
-            qa = (st, v.term(st.value, at=st))
+    ql = _quiver_list(v)
+    qa = (ql[0], ql[2]) if ql else None
     ok = False
     if qa and (v.ctx.head_of(qa[1]) or ("",))[0] == "list" and len(v.ctx.args_of(qa[1])) == 4:
         comps = v.ctx.args_of(qa[1])[2:]
@@ -234,7 +251,7 @@ def d3_orientation(chk, repo):
     okc = False
     for call, st in v.calls():
         if isinstance(call.func, ast.Attribute) and call.func.attr == "append" and isinstance(call.func.value, ast.Name) and \
-                call.func.value.id == "quiver_args":
+                ql is not None and call.func.value.id == ql[1]:
             t = v.term(call.args[0], at=st)
             c = decode_call(v.ctx, t)
             okc = bool(c and c[0] == ".transpose" and len(c[1]) == 1)
@@ -255,14 +272,13 @@ def d4_components(chk, repo):
             okd = any(pol and v.eq(ct, v.spec("vdims is None")) for ct, pol in conds)
     chk.ob(MPL + ".vector::default-components", okd, "C20.D4",
            "without explicit labels the in-plane components are those mapped to dims[0] and dims[1]", v.f)
-    qa = None
-    for st in v.stmts():
-        if isinstance(st, ast.Assign) and isinstance(st.targets[0], ast.Name) and st.targets[0].id == "quiver_args":
-            qa = (st, v.term(st.value, at=st))
+    ql = _quiver_list(v)
+    qa = (ql[0], ql[2]) if ql else None
+    fvals = _filtered_values(v)
     ok = False
-    if qa and (v.ctx.head_of(qa[1]) or ("",))[0] == "list" and len(v.ctx.args_of(qa[1])) == 4:
-        V = v.ev.term(ast.Name(id="vdims", ctx=ast.Load()), at=qa[0])
-        vals = v.ev.term(ast.Name(id="values", ctx=ast.Load()), at=qa[0])
+    if qa and fvals and (v.ctx.head_of(qa[1]) or ("",))[0] == "list" and len(v.ctx.args_of(qa[1])) == 4:
+        V = v.ev.term(ast.Name(id="vdims", ctx=ast.Load()), at=qa[0])        # `vdims` is a parameter of vector()
+        vals = v.term(fvals[0].args[1], at=qa[0]) if isinstance(fvals[0].args[1], ast.Name) else fvals[2]
         ax = v.spec("self.field.vdims.index(V[0]) if V[0] else None", env={"V": V})
         ay = v.spec("self.field.vdims.index(V[1]) if V[1] else None", env={"V": V})
         wx = v.spec("np.transpose(X[..., a] if a is not None else np.zeros(self.field.mesh.n))", env={"X": vals, "a": ax})
@@ -282,13 +298,16 @@ def d4_components(chk, repo):
     chk.ob(MPL + ".vector::colour-from-remaining-component", okc, "C20.D4",
            "automatic colouring uses the one label that is not an arrow component", v.f)
     c = FV(repo, MPL + ".__call__", param_types=PT)
+    V = c.spec("[self.field._r_dim_mapping[self.field.mesh.region.dims[0]], self.field._r_dim_mapping[self.field.mesh.region.dims[1]]]")
+    want_sc = c.spec("getattr(self.field, (set(self.field.vdims) - set(V)).pop())", env={"V": V})
     oks = False
-    for st in c.stmts():
-        if isinstance(st, ast.Assign) and isinstance(st.targets[0], ast.Name) and st.targets[0].id == "scalar_field":
-            t = c.term(st.value, at=st)
-            V = c.spec("[self.field._r_dim_mapping[self.field.mesh.region.dims[0]], self.field._r_dim_mapping[self.field.mesh.region.dims[1]]]")
-            if c.eq(t, c.spec("getattr(self.field, (set(self.field.vdims) - set(V)).pop())", env={"V": V})):
-                oks = True
+    sc = find_assign(c, lambda t_, s_: c.eq(t_, want_sc))
+    if sc:
+        # and that is the field whose .mpl.scalar(...) is drawn
+        for call, st in c.calls():
+            if isinstance(call.func, ast.Attribute) and call.func.attr == "scalar":
+                recv = c.term(call.func.value, at=st)
+                oks = c.ctx.mentions_or_eq(recv, want_sc)
     chk.ob(MPL + ".__call__::out-of-plane-scalar", oks, "C20.D4",
            "for 3-component fields the scalar underlay is the component not mapped to the two plotted dims", c.f)
     l = FV(repo, MPL + ".lightness", param_types=PT)
@@ -303,9 +322,8 @@ def d4_components(chk, repo):
     chk.ob(MPL + ".lightness::in-plane-angle-components", n_ok == 2, "C20.D4",
            "the hue of vector fields is the angle of the components mapped to dims[0] (x) and dims[1] (y)", l.f)
     a = FV(repo, PU + "inplane_angle", param_types=PT)
-    for st in a.stmts():
-        if isinstance(st, ast.Assign) and isinstance(st.targets[0], ast.Name) and st.targets[0].id == "angle_array":
-            t = a.term(st.value, at=st)
+    for st, nm_, t in simple_assigns(a):
+        if (decode_call(a.ctx, t) or ("",))[0] == "np.arctan2":
             c_ = decode_call(a.ctx, t)
             ok = bool(c_ and c_[0] == "np.arctan2" and len(c_[1]) == 2)
             if ok:
@@ -348,7 +366,8 @@ def d5_hiding(chk, repo):
                 if m == "lightness":
                     drawn_ok = True     # rgba is assembled from the filtered rgb (checked below)
                 if m == "vector":
-                    qa = v.ev.term(ast.Name(id="quiver_args", ctx=ast.Load()), at=ds)
+                    ql = _quiver_list(v)
+                    qa = local_term(v, ql[1], ds) if ql else v.ctx.const(0)
                     drawn_ok = any(v.eq(b, b2) for aid in v.ctx.all_atoms(qa) for b in strip_stores(v.ctx, v.ctx.var(aid))
                                    for b2 in strip_stores(v.ctx, vt))
             chk.ob(f"{MPL}.{m}::drawn-array-is-filtered-array", drawn_ok, "C20.D5",
@@ -358,7 +377,8 @@ def d5_hiding(chk, repo):
     for st in l.stmts():
         if isinstance(st, ast.Assign) and isinstance(st.targets[0], ast.Subscript):
             idx = l.ev._index(st.targets[0].slice, l.cfg.node(st), None)
-            rgb = l.ev.term(ast.Name(id="rgb", ctx=ast.Load()), at=st) if "rgb" in l.ev._local_names else None
+            fr_ = _filtered_values(l)
+            rgb = l.term(fr_[0].args[1], at=st) if fr_ else None       # the colour array that went through the filter
             if rgb is not None and l.eq(idx, l.spec("np.isnan(R[..., 0])", env={"R": rgb})) and is_const(l.ctx, l.term(st.value, at=st), 0):
                 okr = True
     chk.ob(MPL + ".lightness::hidden-cells-transparent", okr, "C20.D5",
